@@ -164,12 +164,12 @@ def cells(tier):
                 for subset in ([], [hap.T_ID]) if "verify" not in step else ([],):
                     for errpos in (["last"] if err == "absent" else ["first", "afterstate", "last"]):
                         yield ("mgmt", dict(step=step, err=err, state=state, subset=subset, errpos=errpos, style="ip" if step.startswith("ip") else "ble"))
-                        if step.startswith("ip") and errpos == "last" and not subset and state in ("expected", "absent"):
+                        if step.startswith("ip") and (tier == "thorough" or (errpos == "last" and not subset and state in ("expected", "absent"))):
                             for http in (400, 429, 470) if err != "absent" else ():
                                 yield ("mgmt", dict(step=step, err=err, state=state, subset=subset, errpos=errpos, style="ip", http=http))
                             from vt.ref.ipacc import HTTP_STYLES
 
                             for wire in HTTP_STYLES:
-                                if err == "absent" and state != "expected":
+                                if err == "absent" and (state != "expected" if tier != "thorough" else state == "absent"):
                                     continue
                                 yield ("mgmt", dict(step=step, err=err, state=state, subset=subset, errpos=errpos, style="ip", wire=wire))
